@@ -9,9 +9,44 @@ func c19(c *hx.Ctx) {
 	c.Type = "c19_case"
 	c.Agree = "c19_agree"
 	c.Rule = "sequential scripts against the real client behind a scripted relay: honest messages of A mixed with bit-flipped bodies/signatures, third-key messages claiming A, third-key and reflected own messages, re-contextualised and transplanted signatures, empty body/sender, altered sequence numbers, plus acks, clears, re-opens, stream failures and application Send/Recv/cancel; per operation the requests written, execute's error class, the tracker snapshot and every call's status are compared with the model; non-trivial = script in which a Recv returned or a Send was started"
+	// the re-attribution classes in every encoding of the attached key, always present
+	targeted := [][2]string{{"third-claims-a", "third"}, {"third-claims-a", "a"}, {"third-claims-a", "garbage"},
+		{"third-claims-a-sha256", "third"}, {"self-claims-a", "self"}, {"third-other-context-claims-a", "third"},
+		{"flip-body", "a"}, {"other-context", "a"}, {"honest", "third"}, {"honest", "self"}}
+	preScript = func(g *genState, i int) {
+		if i < 0 || i >= 2*len(targeted) {
+			return
+		}
+		t := targeted[i%len(targeted)]
+		g.r.apply(&sop{kind: "conn"})
+		g.epoch++
+		g.r.apply(&sop{kind: "resp", resp: rOpened(g.epoch)})
+		g.r.apply(&sop{kind: "recv"})
+		m := g.r.tab.craft(t[0], g.body(), g.nextSeq, i, encoding{att: t[1], extra: i >= len(targeted)})
+		g.nextSeq++
+		cls := g.r.tab.lookup(m).class
+		strm := g.r.cur.stream
+		before := strm.takenCount()
+		g.r.apply(&sop{kind: "resp", resp: rRecv(m), note: cls})
+		g.class("targeted:" + cls)
+		if t[0] != "honest" {
+			g.badChecks = append(g.badChecks, badCheck{class: cls, up: g.r.lastUp, ends: g.r.lastEnds,
+				taken: strm.takenCount() - before, closed: strm.isClosed()})
+		}
+	}
+	defer func() { preScript = nil }()
 	runScripts(c, c.N, &profC19, fixedC19(), false, func(g *genState, desc map[string]any) {
 		// direct oracle 1: everything Recv returned is one of A's honest messages, unaltered
 		for _, m := range g.r.recvGot() {
+			// independent check with the primitives: signed by A's key (taken from the session
+			// peer id, never from the message) under the signaling context over exactly this body
+			if m.GetSignedMsg().GetFromPeerId() != g.r.ids[1].str || !cryptoAuthentic(m, g.r.ids[1]) {
+				cl := "unknown"
+				if sy := g.r.tab.lookup(m); sy != nil {
+					cl = sy.class
+				}
+				c.Failf("c19-recv-not-signed-by-peer", desc, "Recv returned a message (class %s, data %x, claimed sender %s) whose signature does not verify under the session peer's key", cl, m.GetSignedMsg().GetData(), m.GetSignedMsg().GetFromPeerId())
+			}
 			sy := g.r.tab.lookup(m)
 			if sy == nil || !sy.honest {
 				cl := "unknown"
